@@ -11,4 +11,6 @@ for c in "$@"; do
   echo "$p check $c rc=$rc $(echo "$out" | grep -E 'VIOLATION' | cut -c1-200 | tr '\n' ';') $(echo "$out" | tail -1)"
 done
 git -C /repo checkout -- .
+# the evidence files written while the change was applied describe the changed tree: restore the committed ones
+git -C /verif checkout -- evidence
 rm -f /verif/.cache/demo_$p
